@@ -118,9 +118,9 @@ Owner(c, k) == LET own == {j \in 1..Len(c.stmts) : c.ocB[j] <= k /\ k < c.ocA[j]
                IF own = {} THEN 0 ELSE CHOOSE j \in own : TRUE
 
 JudgeStmt(c, i, bytes, off, cgb) ==
-  LET s == c.stmts[i]
-      bits == c.bitsS[i]
+  LET bits == c.bitsS[i]
       env == [sym |-> c.sym, equ |-> c.equ, dollar |-> c.locB[i]]
+      s == ResolveEqu(c.stmts[i], env)
       V(o) == OpVal(o, env)
       Mk(tags, why) == [id |-> c.id, i |-> i, at |-> "cg", tags |-> tags, why |-> why, sk |-> s.k,
                         op |-> IF s.k \in {"ins", "br", "far", "raw", "data"} THEN s.mn ELSE s.k,
@@ -141,17 +141,20 @@ JudgeStmt(c, i, bytes, off, cgb) ==
          IF ~Defined(s.e, env) THEN {Mk(<<"C07">>, "undefined symbol in RESB assembled silently")}
          ELSE IF Eval(s.e, env) < 0 THEN {Mk(<<"C07">>, "negative RESB assembled silently")}
          ELSE IF bytes # Zeros(Eval(s.e, env)) THEN {Mk(<<"C05", "C06">>, "RESB bytes")} \cup size ELSE size
-    [] s.k = "alignb" ->
-         IF bytes # Zeros(AlignPad(c.org + off, s.v)) THEN {Mk(<<"C05">>, "ALIGNB padding")} \cup size ELSE size
+    [] s.k = "alignb" ->    \* (sizes are only comparable when pass 1 and code generation agree on the address)
+         IF bytes # Zeros(AlignPad(c.org + off, s.v)) THEN {Mk(<<"C05">>, "ALIGNB padding")} \cup size
+         ELSE IF c.locB[i] = c.org + off THEN size ELSE {}
     [] s.k = "ins" ->
          IF ~OpsDefined(s.ops, env) THEN {Mk(<<"C07">>, "undefined symbol in operand assembled silently")}
          ELSE IF ~Judged(s) THEN size
          ELSE IF ~Denotes(bytes, s, bits, V)
-              THEN {Mk(IF cgb # bits /\ cgb \in {16, 32} /\ Denotes(bytes, s, cgb, V) THEN <<"C17">>
-                       ELSE IF HasMem(s.ops) THEN <<"C01", "C02">> ELSE <<"C01">>,
-                       "bytes do not denote the source instruction")} \cup size
+              THEN {[Mk(IF cgb # bits /\ cgb \in {16, 32} /\ Denotes(bytes, s, cgb, V) THEN <<"C17">>
+                        ELSE IF HasMem(s.ops) THEN <<"C01", "C02">> ELSE <<"C01">>,
+                        "bytes do not denote the source instruction")
+                     EXCEPT !.dev = IF Dev66(bytes, s, bits, V) THEN "D_Prefix66" ELSE ""]} \cup size
               ELSE size \cup (IF MinLen(s, bits, V) > 0 /\ Len(bytes) > MinLen(s, bits, V)
-                              THEN {Mk(<<"C18">>, "longer than the shortest valid encoding")} ELSE {})
+                              THEN {[Mk(<<"C18">>, "longer than the shortest valid encoding")
+                                     EXCEPT !.dev = IF Dev66(bytes, s, bits, V) THEN "D_Prefix66" ELSE ""]} ELSE {})
     [] s.k = "br" -> IF size # {} /\ IsJmpDev THEN {[r EXCEPT !.dev = "D_JmpSize"] : r \in size} ELSE size
     [] s.k = "far" -> size               \* landing is checked at the end, when real offsets are known
     [] s.k = "raw" -> {}
@@ -257,10 +260,10 @@ JudgeRel(e) ==
          ELSE IF ~AB.clean \/ AB.out # A.out \o B.out THEN {Mk("concatenation differs", <<e.a, e.b, e.ab>>)} ELSE {}
     [] e.kind = "org" ->     \* b = a relocated by e.delta: same lengths; statements differ only where they embed absolute addresses
          IF ~(A.clean /\ B.clean) THEN (IF A.clean # B.clean THEN {Mk("outcome class differs", <<e.a, e.b>>)} ELSE {})
-         ELSE IF Len(A.sb) # Len(B.sb) THEN {Mk("statement count differs", <<e.a, e.b>>)}
-         ELSE LET bad == {j \in 1..Len(A.sb) :
-                            \/ Len(A.sb[j]) # Len(B.sb[j])
-                            \/ (~e.abs[j] /\ A.sb[j] # B.sb[j])}
+         ELSE IF Len(A.sb) - e.sa # Len(B.sb) - e.sb THEN {Mk("statement count differs", <<e.a, e.b>>)}
+         ELSE LET bad == {j \in 1..(Len(A.sb) - e.sa) :      \* e.sa / e.sb: leading statements (the ORG itself) not compared
+                            \/ Len(A.sb[j + e.sa]) # Len(B.sb[j + e.sb])
+                            \/ (~e.abs[j] /\ A.sb[j + e.sa] # B.sb[j + e.sb])}
               IN IF bad # {} THEN {Mk("relocation changed a position-independent statement or a length", <<e.a, e.b, CHOOSE j \in bad : TRUE>>)}
                  ELSE IF \E nm \in DOMAIN A.sym : nm \in DOMAIN B.sym /\ B.sym[nm] - A.sym[nm] # e.delta
                       THEN {Mk("label not relocated by delta", <<e.a, e.b>>)} ELSE {}
